@@ -398,6 +398,7 @@ def search(ctx, subject, strategy, check, n, max_causes=4):
                 guard["t_fail"] = time.time()
             guard["failing"].add(h64(canon(case)))
             last["case"] = case
+            last["v"] = v
             raise
         if r is None:
             r = (False, ())
@@ -416,6 +417,19 @@ def search(ctx, subject, strategy, check, n, max_causes=4):
             return
         except Violation as v:
             ctx.violation(subject, last.get("case"), v)
+        except hypothesis.errors.Flaky as e:
+            # The oracle failed on a generated case and passed when Hypothesis re-ran the very
+            # same case.  The harness is deterministic (no clock, no RNG of its own), so the
+            # code under test answered differently for equal inputs: its result depends on
+            # earlier calls.  The observed oracle failure is real; report it, marked as
+            # history dependent (the saved case may pass when replayed in isolation).
+            if "v" not in last:
+                raise HarnessError("flaky without a recorded failure in %s/%s: %r" % (ctx.prop, subject, e))
+            v0 = last["v"]
+            v = Violation("history_dependent:" + v0.kind, dict(v0.detail, note="same case passed when re-executed: the result depends on earlier calls"))
+            if not ctx.handle(subject, last["case"], v):
+                ctx.violation(subject, last["case"], v)
+            return
         except hypothesis.errors.HypothesisException as e:
             raise HarnessError("hypothesis error in %s/%s: %r" % (ctx.prop, subject, e))
 
